@@ -28,6 +28,12 @@ SEARCH_TRUST = [
     "the distance of each candidate is computed by the implementation's own distance function on the stored vector and passed to the model",
 ]
 
+NUMERIC_TRUST = [
+    "IEEE-754 binary64 arithmetic of the Go runtime on amd64 (no FMA); Lean Float = the same hardware doubles (driver)",
+    "math.Acos (pure Go, not correctly rounded): the harness applies Go's Acos to the model's argument",
+    "math.Round / float32 conversion semantics",
+]
+
 PROPS = {
     "C01": dict(
         modules=["Syzgy.Props.C01"], ties=["Storage"],
@@ -92,5 +98,19 @@ PROPS = {
         trusted=SEARCH_TRUST + ["distanceToHyperplane is a deterministic function of (vector, hyperplane): the side oracle of the model is a function"],
         statement="forest ids = live ids invariant, all histories, all oracles",
         partial="covering-radius completeness is checked on the implementation after every operation (direct oracle); as a theorem it needs the geometric PruneSound hypothesis and is not yet proved",
+    ),
+    "C06": dict(
+        modules=["Syzgy.Props.C06", "Syzgy.Props.C06Real"], ties=["Numeric"],
+        runs={"quick": [["numeric-C06", "--scenarios", "60000"]], "thorough": [["numeric-C06", "--scenarios", "600000"]]},
+        trusted=NUMERIC_TRUST,
+        statement="metric laws for every arithmetic satisfying the IEEE laws + over ℝ",
+        partial="the exact laws (symmetry, zero self-distance, non-negativity, cosine in [0,1], never NaN) are proved for every arithmetic satisfying explicitly listed IEEE facts; triangle inequality, scale invariance and opposite=1 are proved in exact real arithmetic; the forward error bound linking binary64 to ℝ is not proved (checked with tolerance on the implementation)",
+    ),
+    "C12": dict(
+        modules=["Syzgy.Props.C12"], ties=["Numeric"],
+        runs={"quick": [["numeric-C12"]], "thorough": [["numeric-C12"]]},
+        trusted=NUMERIC_TRUST,
+        statement="quantizer contract (exact and IEEE), bit-packing round trip incl. odd dims",
+        partial="nearest level / error bound / clamp / monotone / idempotent are proved for the model's quantizer in exact rational arithmetic; under binary64 they are checked exhaustively on all 2^b codes and breakpoint neighbours (b<=16) bit-for-bit against the model; b=32/64 are conversions checked on the implementation",
     ),
 }
